@@ -73,6 +73,7 @@ static int	step_cmp(const struct step *, const struct step *);
 static int	step_set_field(struct step_file *, struct step *, const char *,
     const char *);
 static int	step_validate(const struct step *, struct lexer *, int);
+static int	step_validate_string(const char *, const char *);
 
 struct field_definition {
 	const char		*fd_name;
@@ -460,11 +461,37 @@ step_set_keyval(struct step_file *sf, struct step *st, const char *kv,
 	key = arena_strndup(&s, kv, keylen);
 	val++; /* consume '=' */
 
+	if (step_validate_string(key, val))
+		return 1;
 	if (step_set_field(sf, st, key, val)) {
 		warnx("unknown key '%s'", key);
 		error = 1;
 	}
 	return error;
+}
+
+/*
+ * Reject string values that cannot be represented in the step file, or that
+ * would not be read back verbatim: the field and row separators, the
+ * interpolation character and empty values for mandatory fields.
+ */
+static int
+step_validate_string(const char *key, const char *val)
+{
+	const struct field_definition *fd;
+
+	fd = field_definition_find_by_name(key);
+	if (fd == NULL || fd->fd_type != STRING)
+		return 0;
+	if (val[0] == '\0' && (fd->fd_flags & OPTIONAL) == 0) {
+		warnx("empty value for field '%s'", key);
+		return 1;
+	}
+	if (strpbrk(val, ",\n$") != NULL) {
+		warnx("invalid value for field '%s'", key);
+		return 1;
+	}
+	return 0;
 }
 
 static int
